@@ -130,21 +130,23 @@ def span_points(knots, start, end, per_span):
     return pts
 
 
-def check_piece(ex, piece, d, lo, hi, what, thin=False):
-    """`piece` (real object) must be non-periodic in direction d, have domain [lo, hi] there and the
-    other directions' domains unchanged, and evaluate to the original (ExactObj `ex`) on it."""
+def check_piece(ex, piece, d, lo, hi, what, thin=False, periodic=-1):
+    """`piece` (real object) must have periodicity `periodic` (default: none) in direction d, have
+    domain [lo, hi] there (skipped when lo is None) and the other directions' domains unchanged, and
+    evaluate to the original (ExactObj `ex`) on it."""
     fails = []
     o = ex.o
     pd = len(o['bases'])
     if piece.pardim != pd:
         return ['%s: parametric dimension changed' % what]
     b = piece.bases[d]
-    if b.periodic != -1:
-        fails.append('%s is periodic (%d) in the split direction' % (what, b.periodic))
-    sc = max(1.0, abs(lo), abs(hi))
-    if abs(piece.start(d) - lo) > 1e-9 * sc or abs(piece.end(d) - hi) > 1e-9 * sc:
-        fails.append('%s has domain [%r, %r] in direction %d, expected [%r, %r]' % (what, piece.start(d), piece.end(d), d, lo, hi))
-        return fails
+    if periodic is not None and b.periodic != periodic:
+        fails.append('%s has periodicity %d in direction %d, expected %d' % (what, b.periodic, d, periodic))
+    if lo is not None:
+        sc = max(1.0, abs(lo), abs(hi))
+        if abs(piece.start(d) - lo) > 1e-9 * sc or abs(piece.end(d) - hi) > 1e-9 * sc:
+            fails.append('%s has domain [%r, %r] in direction %d, expected [%r, %r]' % (what, piece.start(d), piece.end(d), d, lo, hi))
+            return fails
     params, rights = [], []
     for k in range(pd):
         pb = piece.bases[k]
